@@ -22,6 +22,10 @@ import (
 	"time"
 )
 
+// Beats moves every 16384 scheduling decisions of any kernel of the process:
+// a run that is long but alive differs from a loop without a yield point.
+var Beats atomic.Uint64
+
 // State of a task as recorded by the task itself before it parks.
 type State int32
 
@@ -146,6 +150,10 @@ type Kernel struct {
 	// reading (0: it stands still between scheduler sleeps); see xtime.Now
 	TickNs int64
 	ticks  int64
+	// MonoTimes / WallSkew: see xtime.Now (clock readings with a monotonic part;
+	// the wall clock alone can be stepped)
+	MonoTimes bool
+	WallSkew  time.Duration
 
 	timers   []*Timer
 	timerSeq int
@@ -475,6 +483,9 @@ func (k *Kernel) Step() bool {
 func (k *Kernel) release(t *Task) {
 	wasSelect := t.State() == BlockedSelect
 	k.steps++
+	if k.steps&0x3fff == 0 {
+		Beats.Add(1) // the run is alive (real-time watchdog of the worker)
+	}
 	t.Steps++
 	verBefore := k.version
 	k.version++
